@@ -6,7 +6,8 @@ dir=$1; shift
 cd /repo || exit 2
 if ! git diff --quiet; then echo "/repo has uncommitted changes"; exit 2; fi
 git apply "$dir/patch.diff" || { echo "patch does not apply"; exit 2; }
-trap 'git -C /repo checkout -- . ' EXIT
+rm -rf /tmp/evidence.bak && cp -r /verif/evidence /tmp/evidence.bak
+trap 'git -C /repo checkout -- . ; rm -rf /verif/evidence; mv /tmp/evidence.bak /verif/evidence; rm -f /verif/replays/C*.json' EXIT
 cd /verif
 for p in "$@"; do
   echo "=== $p against $(basename $dir)"
